@@ -85,6 +85,7 @@ class Ctx(object):
         self.symvars = {}
         self.writes = []          # origins of mutated pre-existing objects
         self.goal_mode = False    # True while a contract expression is evaluated as a proof goal
+        self.assume_mode = False  # True while a callee's postcondition is being assumed
         self.alloc = 0
 
     # -- fresh symbols
@@ -148,6 +149,27 @@ class Ctx(object):
         self.taken.append(ch)
         self.assume(c if ch else z3.Not(c))
         return ch
+
+    def concretize(self, e):
+        """If the path condition pins the Int term e to one value, return it (else None)."""
+        e = z3.simplify(e)
+        if z3.is_int_value(e):
+            return e.as_long()
+        s = z3.Solver()
+        s.set("timeout", self.engine.feas_timeout_ms)
+        for p in self.pc:
+            s.add(p)
+        for a in self.axioms():
+            s.add(a)
+        if s.check() != z3.sat:
+            return None
+        v = s.model().eval(e, model_completion=True)
+        if not z3.is_int_value(v):
+            return None
+        s.add(e != v)
+        if s.check() == z3.unsat:
+            return v.as_long()
+        return None
 
     def emit(self, kind, label, goal, line=None, note=""):
         if isinstance(goal, bool):
@@ -286,6 +308,11 @@ def str_eq(a, b, ctx=None):
     if ctx is not None and ctx.goal_mode:
         sk = ctx.fresh("sk_pos")
         return z3.And(a.length == b.length, z3.Implies(z3.And(sk >= 0, sk < a.length), a.at(sk) == b.at(sk)))
+    if ctx is not None and getattr(ctx, "assume_mode", False):
+        # as a hypothesis the pointwise fact is a universally quantified formula (array-property fragment)
+        i = z3.Int("q_i")
+        body = z3.Implies(z3.And(i >= 0, i < a.length), a.at(i) == b.at(i))
+        return z3.And(a.length == b.length, z3.ForAll([i], body))
     raise Unsupported("equality of two strings of unknown length")
 
 
@@ -1880,6 +1907,12 @@ class Exec(object):
                     return self.wrap(f, "class:%s.%s" % (k.__name__, name))
             raise Raised(AttributeError, line, implicit=True, note=name)
         if isinstance(o, (PList, PDict, PSet, SStr, str, bytes, SList, PIter)):
+            return NativeMethod(o, name)
+        if isinstance(o, FileObj):
+            if name == "data":
+                return o.data
+            if name == "pos":
+                return mk_int(o.pos)
             return NativeMethod(o, name)
         if isinstance(o, SuperProxy):
             mro = list(o.obj.cls.__mro__)
